@@ -147,6 +147,16 @@ func buildAndProbe(modDir string, gens []*genOutcome, seed uint64, nRandom int) 
 		}
 		names = good
 	}
+	// every generated package must define the dialect itself
+	kept := names[:0]
+	for _, n := range names {
+		if _, err := os.Stat(filepath.Join(modDir, n, "dialect.go")); err != nil {
+			pr.BuildErr[n] = "the generator reported success but wrote no dialect.go (the package defines no Dialect)"
+			continue
+		}
+		kept = append(kept, n)
+	}
+	names = kept
 	for _, n := range names {
 		p, err := scanPackage(filepath.Join(modDir, n))
 		if err != nil {
